@@ -632,7 +632,7 @@ Proof.
   - apply (matrix_adjoint_pair Qc 0%Qc 1%Qc Qcplus Qcmult Qcminus Qcopp Qcrt 2 (qmat [[1; 0]; [0; 2]; [1; 1]]%Q)). repeat constructor.
   - apply (pos_def_of_positive_shift Qc 0%Qc 1%Qc Qcplus Qcmult Qcminus Qcopp qc_leb phiQ embedding_Qc).
     apply Rnot_le_lt. intros H. rewrite <- phiQ_0 in H. apply phiQ_leb in H. vm_compute in H. discriminate.
-  - eexists. split; vm_compute; reflexivity.
+  - eexists. split; [vm_compute; reflexivity|]. vm_compute. reflexivity.
 Qed.
 Print Assumptions C16_convergence_nonvacuous.
 
